@@ -159,6 +159,7 @@ def step (s : Unit) (line : String) : Unit × String :=
   | "sample" :: _ =>
     match arg? ws "fn", (arg? ws "a").bind parseBitsList, argNat? ws "seed", argNat? ws "k" with
     | some fn, some a, some sd, some k =>
+      if fn == "esl_sxp_Sample" || fn == "esl_gam_Sample" || fn == "esl_lognormal_Sample" then (s, "unmodelled") else
       if sd = 0 then (s, "bad-op") else
       match sampleLoop fn a k (Rng.create .mersenne (UInt32.ofNat sd)) [] with
       | some vs => (s, "ok " ++ ",".intercalate vs)
